@@ -514,7 +514,7 @@ func runHistory(base string, h *hist.History, certs *hist.Certs, nfresh int, fac
 		if h.Opt.ReloadInterval > 0 {
 			// on a loaded machine the queued reload may run later than the interval: nothing else is going on, so the running
 			// table can only change through that reload -- wait for it (bounded) before the state is recorded
-			for k := 0; k < 150; k++ {
+			for k := 0; k < 600; k++ {
 				run := w.Sim.RunningCopy()
 				disk, derr := hasim.LoadRuntime(w.Opt.CfgDir())
 				if derr != nil || run == nil {
